@@ -431,6 +431,7 @@ def Listener.matchPort (l : Listener) : Option Nat :=
   if l.port != 0 && !l.httpProxy then some l.port else none
 
 structure Flags where
+  exclGuard : Bool := true    -- F14 repaired: a `~` entry also keeps a VirtualService destination out
   unified : Bool := true      -- PILOT_UNIFIED_SIDECAR_SCOPE
   pickBest : Bool := true     -- PILOT_SIDECAR_PICK_BEST_SERVICE_NAMESPACE
   enhanced : Bool := true     -- ENABLE_ENHANCED_DESTINATIONRULE_MERGE
@@ -479,10 +480,22 @@ def addVSDest (f : Flags) (m : Mesh) (svcs : List Svc) (cfgNs : String) (mp : Op
     | some x => appendSvc acc x
     | none => acc
 
+/-- the service a VirtualService destination resolves to is covered by a `~` entry of the listener's hosts
+    (scoped to the service's namespace or to every namespace): `IstioEgressListenerWrapper.excludes` -/
+def destExcluded (f : Flags) (m : Mesh) (svcs : List Svc) (cfgNs : String) (ps : List PHost) (h : String) : Bool :=
+  match resolveDest f m svcs cfgNs h with
+  | some s => exclBy (hcFor ps s.ns) s.hostname || exclBy (hcFor ps "*") s.hostname
+  | none => false
+
+/-- one VirtualService destination, with the exclusion entries of the listener honoured (F14 repair) -/
+def addVSDestX (f : Flags) (m : Mesh) (svcs : List Svc) (cfgNs : String) (ps : List PHost) (mp : Option Nat)
+    (acc : List Svc) (d : String × List Nat) : List Svc :=
+  if f.exclGuard && destExcluded f m svcs cfgNs ps d.1 then acc else addVSDest f m svcs cfgNs mp acc d
+
 /-- one egress listener in `collectImportedServices` -/
 def collectListener (f : Flags) (m : Mesh) (svcs : List Svc) (cfgNs : String) (acc : List Svc) (ilw : ILW) : List Svc :=
   let acc1 := ilw.services.foldl appendSvc acc
-  ilw.vss.foldl (fun a v => (vsDestinations v cfgNs).foldl (addVSDest f m svcs cfgNs ilw.matchPort) a) acc1
+  ilw.vss.foldl (fun a v => (vsDestinations v cfgNs).foldl (addVSDestX f m svcs cfgNs ilw.hosts ilw.matchPort) a) acc1
 
 /-- `SidecarScope.collectImportedServices` -/
 def collectImportedServices (f : Flags) (m : Mesh) (svcs : List Svc) (cfgNs : String) (ls : List ILW) : List Svc :=
